@@ -145,7 +145,7 @@ def graph_case(draw):
     return c
 
 
-HUBS = ("base", "ratios", "root_height", "shifts", "scale.unres", "aff.loc")
+HUBS = ("base", "ratios", "root_height", "shifts", "scale.unres", "aff.loc", "shape")
 OPS = ["assign", "assign", "assign", "view", "cat", "transformed", "sample", "rsample", "operator", "inplace", "requires_grad", "eval", "anon", "nudge", "nudge", "bad_value", "bad_shape"]
 
 # G6: models whose hyper-parameters are written as constants: each becomes a Parameter without an id held by the model
@@ -644,7 +644,9 @@ def body(c):
         fobs = observables(fresh)
         bad = None
         for i, nme in enumerate(names):
-            if not (op["mask"] >> (i % 16)) & 1 and k != "eval":
+            # after an update of a site-model parameter the probabilities-first accessor order is always observed
+            forced = nme.startswith("probs:") and isinstance(target, str) and target.split(".")[0] in ("shape", "pinv", "mu")
+            if not (op["mask"] >> (i % 16)) & 1 and k != "eval" and not forced:
                 continue
             got, exc2 = guarded(observe, nme, obs[nme])
             if exc2 is not None:
